@@ -100,9 +100,21 @@ func (g *DependencyGraph) AddProvider(provider Provider) error {
 		Group: provider.GetGroup(),
 	}
 
-	// Create or update node
+	// Create or update node. Remember what was there before so that a
+	// rejected add can put the graph back exactly as it was.
 	node, exists := g.nodes[nodeKey]
-	if !exists {
+	var (
+		previousProvider     Provider
+		previousDependencies []NodeKey
+		previousEdges        []NodeKey
+		hadEdges             bool
+		createdPlaceholders  []NodeKey
+	)
+	if exists {
+		previousProvider = node.Provider
+		previousDependencies = node.Dependencies
+		previousEdges, hadEdges = g.edges[nodeKey]
+	} else {
 		node = &Node{
 			Key:          nodeKey,
 			Dependencies: make([]NodeKey, 0),
@@ -133,6 +145,7 @@ func (g *DependencyGraph) AddProvider(provider Provider) error {
 				Dependencies: make([]NodeKey, 0),
 				Dependents:   make([]NodeKey, 0),
 			}
+			createdPlaceholders = append(createdPlaceholders, depKey)
 		}
 	}
 
@@ -148,9 +161,25 @@ func (g *DependencyGraph) AddProvider(provider Provider) error {
 
 	// Check for cycles immediately
 	if err := g.detectCyclesFrom(nodeKey); err != nil {
-		// Remove the node if it creates a cycle
-		delete(g.nodes, nodeKey)
-		delete(g.edges, nodeKey)
+		// Undo the add: restore the previous node (or remove the new one) and
+		// drop the placeholder nodes this call created
+		if exists {
+			node.Provider = previousProvider
+			node.Dependencies = previousDependencies
+			if hadEdges {
+				g.edges[nodeKey] = previousEdges
+			} else {
+				delete(g.edges, nodeKey)
+			}
+		} else {
+			delete(g.nodes, nodeKey)
+			delete(g.edges, nodeKey)
+		}
+		for _, placeholder := range createdPlaceholders {
+			if placeholder != nodeKey || !exists {
+				delete(g.nodes, placeholder)
+			}
+		}
 		g.updateDegrees()
 		return err
 	}
